@@ -4,7 +4,8 @@ CONSTANTS
   AlwaysMarshalled = {}
   HostAppFallback = TRUE
   Zero = "0"
-INVARIANT LayeredOK
-INVARIANT NoLeak
+\* property invariants as CONSTRAINTs before Report (docs/FAMILY_GUIDE.md): a violating recorded state cuts only its own segment
+CONSTRAINT LayeredOK
+CONSTRAINT NoLeak
 CONSTRAINT Report
 CHECK_DEADLOCK FALSE
